@@ -343,9 +343,59 @@ Definition pm_model (c : list Z * nat * bool * nat * list (list nat) * (Z * Z) *
         return d
 
 
+class RepeatedElements(Suite):
+    """inputs that hold equal elements, also equal across types (1, 1.0, True; 'a' twice), in the same chunk and in
+    different ones: the result is [f(x) for x in xs] for an f that tells the types apart, and f is called once per
+    element, not once per distinct value.  Runtime check only (the interleaving suite uses distinct integers)."""
+    name = 'repeated_elements'
+    model = ''
+    INPUTS = [['a', 'b', 'a'], [1, 2, 1.0, 3, True], [0, False, 0.0, '0'], [5, 5, 5, 5, 5], ['x'], [1, '1', 1]]
+
+    def gen(self, rng, tier):
+        return [dict(xs=i, which=w, threads=t, chunksize=c, sort=s) for i in range(len(self.INPUTS)) for w in ('threading', 'iter')
+                for t in (1, 2, 3) for c, s in ((2, True), (1000, True), (2, False)) if not (w == 'iter' and (c != 2 or not s))]
+
+    def run_impl(self, case):
+        import threading
+        xs = self.INPUTS[case['xs']]
+        calls, lock = [], threading.Lock()
+
+        def f(x):
+            with lock:
+                calls.append(repr(x))
+            return f'{type(x).__name__}:{x}'
+        if case['which'] == 'threading':
+            from taskchain.utils.threading import parallel_map
+            res = parallel_map(f, list(xs), threads=case['threads'], sort=case['sort'], use_tqdm=False, chunksize=case['chunksize'])
+        else:
+            from taskchain.utils.iter import parallel_map
+            res = parallel_map(f, list(xs), threads=case['threads'])
+        return dict(res=res, calls=sorted(calls))
+
+    def oracle(self, case, obs):
+        if 'unexpected_exception' in obs:
+            return f'unexpected exception {obs["unexpected_exception"]}: {obs["text"]}'
+        xs = self.INPUTS[case['xs']]
+        want = [f'{type(x).__name__}:{x}' for x in xs]
+        got = obs['res'] if case['sort'] else None
+        if case['sort'] and got != want:
+            return f'{case}: parallel_map over {xs} gives {got}, map gives {want}'
+        if not case['sort'] and sorted(obs['res']) != sorted(want):
+            return f'{case}: parallel_map over {xs} gives {obs["res"]}, not a rearrangement of {want}'
+        if obs['calls'] != sorted(repr(x) for x in xs):
+            return f'{case}: f was called for {obs["calls"]}; the input is {xs}'
+        return None
+
+    def nontrivial(self, case, obs):
+        return True
+
+    def key(self, case):
+        return repr(case)
+
+
 class C17(Prop):
     pid = 'C17'
-    suites = [Chunked(), PMap()]
+    suites = [Chunked(), PMap(), RepeatedElements()]
     trusted_base = [
         'the scheduler is modelled as "any order in which the futures of one chunk complete"; the thread pool, '
         'asyncio event loop and GIL themselves are not modelled (partial)',
